@@ -3,17 +3,19 @@ From Coq Require Import List String Arith NArith Bool Lia.
 From FB Require Import Model.Overlay Proofs.OverlayInv Proofs.OverlayScan Proofs.OverlayRestart
   Proofs.OverlayReadOnly Proofs.OverlayCoh Proofs.OverlayCohView Proofs.OverlayCopyUp Proofs.OverlayCohOps
   Proofs.OverlayCohSteps Proofs.OverlayRefineTeq Proofs.OverlayRefineMerge Proofs.OverlayRefineRun Proofs.OverlayRefine
-  Proofs.OverlayRefineWh Proofs.OverlayRefineCu Proofs.OverlayRefineLink Proofs.OverlayRefineRmdir Proofs.OverlayRefineCuFile Proofs.OverlayRefineDirAttr.
+  Proofs.OverlayRefineWh Proofs.OverlayRefineCu Proofs.OverlayRefineLink Proofs.OverlayRefineRmdir Proofs.OverlayRefineCuFile Proofs.OverlayRefineDirAttr Proofs.OverlayRefineCuRm.
 Import ListNotations.
 
 (* no copy-up (Stage 1), whiteout cases (Stage 2), creation below a directory that is copied up first (Stage 3), link,
-   rmdir of a merged directory that is empty in the view, attribute changes of upper directories *)
+   rmdir of a merged directory that is empty in the view, attribute changes of upper directories,
+   unlink below a directory that is copied up first *)
 Definition refinable (s : state) (o : op) : bool :=
-  direct s o || direct_wh s o || direct_cu s o || direct_link s o || direct_rmdir_merged s o || direct_dattr s o.
+  direct s o || direct_wh s o || direct_cu s o || direct_link s o || direct_rmdir_merged s o || direct_dattr s o || direct_cu_rm s o.
 
 Theorem op_refines_fragments s o v : Coherent s -> refinable s o = true -> view (load_all s) = Some v -> refines_at s o v.
 Proof.
-  intros HC H Hv. unfold refinable in H. apply orb_prop in H. destruct H as [H|H]; [|apply op_refines_dattr; assumption].
+  intros HC H Hv. unfold refinable in H. apply orb_prop in H. destruct H as [H|H]; [|apply op_refines_unlink_cu; assumption].
+  apply orb_prop in H. destruct H as [H|H]; [|apply op_refines_dattr; assumption].
   apply orb_prop in H. destruct H as [H|H]; [|apply op_refines_rmdir_merged; assumption].
   apply orb_prop in H. destruct H as [H|H]; [|apply op_refines_link; assumption].
   apply orb_prop in H. destruct H as [H|H]; [|apply op_refines_copyup; assumption].
